@@ -108,6 +108,12 @@ class DataSet:
             raise ValueError("Shape of data and shape of DataArray must match "
                              "in all dimension but axis!")
 
+        # check first: data that cannot be stored must not leave the array enlarged
+        kind = getattr(self.dtype, "kind", None)    # a DataFrame has a tuple of types
+        if kind is not None and kind in "biufc" and data.dtype.kind not in "biufc":
+            raise TypeError("Cannot append data of type {} to a DataArray "
+                            "of type {}".format(data.dtype, self.dtype))
+
         offset = tuple(0 if i != axis else x for i, x in enumerate(self.shape))
         count = data.shape
         enlarge = tuple(self.shape[i] + (0 if i != axis else x)
